@@ -109,10 +109,11 @@ type Eval struct {
 	callLog  []string // names of contracts applied (callee side), for evidence
 	loopMods map[*ssa.BasicBlock][]string
 	usedConstGlobals bool
+	prov     map[string]string // interface term loaded from fidRef.file -> the fidRef
 }
 
 func NewEval(p *Program) *Eval {
-	e := &Eval{p: p, siteCnt: map[string]int{}, muTags: map[string]int{}}
+	e := &Eval{p: p, siteCnt: map[string]int{}, muTags: map[string]int{}, prov: map[string]string{}}
 	e.c = NewCtx(p)
 	return e
 }
